@@ -705,6 +705,10 @@ def _pairing_mgmt(ctx: Context, q: str) -> int:
             continue
         op, (l, r) = t[1][0], t[2]
         m2 = ("const", M[2])
+        # `State not in reply` [absent]: a reply without a state item is tolerated, exactly as `.get(State, M2)` tolerates it
+        if op in ("In", "NotIn") and l == ("const", TLV_STATE):
+            pass_edges += ctx.edges(cfg, n, "T" if op == "NotIn" else "F")
+            continue
         if op in ("NotEq", "Eq") and ((is_state_get(l, M[2]) and r == m2) or (is_state_get(r, M[2]) and l == m2)):
             pass_edges += ctx.edges(cfg, n, "F" if op == "NotEq" else "T")
             fail_edges += ctx.edges(cfg, n, "T" if op == "NotEq" else "F")
